@@ -474,3 +474,57 @@ Proof.
   destruct n as [|p]; [inversion He; subst; sok|].
   repeat (destruct p as [p|p|]; try discriminate He); inversion He; subst; clear He; sok.
 Qed.
+
+(** * clone_from (C09): for every catalogue entry whose Rust type is Clone, the field-by-field
+    [clone_from] of the model returns the source whatever the destination held *)
+Definition COK (M : MRegion) : Prop := forall C, m_clone M = Some C -> CloneFromOK C.
+Lemma cok_owned E : COK (m_owned E).
+Proof. intros C HC. cbn in HC. inversion HC; subst. apply owned_clone_ok. Qed.
+Lemma cok_mirror E : COK (m_mirror E).
+Proof. intros C HC. cbn in HC. inversion HC; subst. apply mirror_clone_ok. Qed.
+Lemma cok_vec E : COK (m_vec E).
+Proof. intros C HC. cbn in HC. inversion HC; subst. apply vec_region_clone_ok. Qed.
+Lemma cok_string wf M : COK M -> COK (m_string wf M).
+Proof. intros HM C HC. cbn [m_clone m_string] in HC. apply option_map_some in HC. destruct HC as (c & Hc & ->). apply (@string_clone_ok _ c (HM c Hc)). Qed.
+Lemma cok_option M : COK M -> COK (m_option M).
+Proof. intros HM C HC. cbn [m_clone m_option] in HC. apply option_map_some in HC. destruct HC as (c & Hc & ->). apply (@option_clone_ok _ c (HM c Hc)). Qed.
+Lemma cok_result A B : COK A -> COK B -> COK (m_result A B).
+Proof.
+  intros HA HB C HC. cbn [m_clone m_result] in HC.
+  destruct (m_clone A) as [a|] eqn:Ea; [|discriminate]. destruct (m_clone B) as [b|] eqn:Eb; [|discriminate].
+  inversion HC; subst. apply (@result_clone_ok _ _ a b (HA a Ea) (HB b Eb)).
+Qed.
+Lemma cok_tuple2 A B : COK A -> COK B -> COK (m_tuple2 A B).
+Proof.
+  intros HA HB C HC. cbn [m_clone m_tuple2] in HC.
+  destruct (m_clone A) as [a|] eqn:Ea; [|discriminate]. destruct (m_clone B) as [b|] eqn:Eb; [|discriminate].
+  inversion HC; subst. apply (@tuple2_clone_ok _ _ a b (HA a Ea) (HB b Eb)).
+Qed.
+Lemma cok_slice M (O : IC (idx (mr M))) {OS : ICSer O} : COK M -> COK (m_slice M O).
+Proof. intros HM C HC. cbn [m_clone m_slice] in HC. apply option_map_some in HC. destruct HC as (c & Hc & ->). apply (@slice_clone_ok _ O c (HM c Hc)). Qed.
+Lemma cok_slice_vec M isz : COK M -> COK (m_slice_vec M isz).
+Proof. intros HM C HC. exact (@cok_slice M (vec_ic (idx (mr M)) isz) _ HM C HC). Qed.
+Lemma cok_collapse M : COK M -> COK (m_collapse M).
+Proof. intros HM C HC. cbn [m_clone m_collapse] in HC. apply option_map_some in HC. destruct HC as (c & Hc & ->). apply (@collapse_clone_ok _ (m_veq M) c (HM c Hc)). Qed.
+Lemma cok_consec M PI (O : IC nat) {OS : ICSer O} chk : COK M -> COK (@m_consec M PI O OS chk).
+Proof. intros HM C HC. cbn [m_clone m_consec] in HC. apply option_map_some in HC. destruct HC as (c & Hc & ->). apply (@consec_clone_ok _ PI O chk c (HM c Hc)). Qed.
+Lemma cok_columns M (O : IC nat) {OS : ICSer O} chk csz isz : COK M -> COK (m_columns M O chk csz isz).
+Proof. intros HM C HC. cbn [m_clone m_columns] in HC. apply option_map_some in HC. destruct HC as (c & Hc & ->). apply (@columns_clone_ok _ O chk c (HM c Hc)). Qed.
+Lemma cok_codec : COK m_codec.
+Proof. intros C HC. discriminate HC. Qed.
+Lemma cok_huffman bits : COK (m_huffman bits).
+Proof. intros C HC. cbn in HC. inversion HC; subst. intros d s. reflexivity. Qed.
+
+Ltac cok :=
+  repeat first
+    [ apply cok_codec | apply cok_huffman | apply cok_owned | apply cok_mirror | apply cok_vec
+    | apply cok_string | apply cok_option | apply cok_result | apply cok_tuple2
+    | apply cok_slice_vec | apply cok_slice | apply cok_columns | apply cok_consec | apply cok_collapse ].
+
+Theorem catalogue_clone_from chk szs n e : entry chk szs n = Some e ->
+  forall C, m_clone e = Some C -> forall d s, r_clone_from C d s = s.
+Proof.
+  intros He. change (COK e). unfold entry in He.
+  destruct n as [|p]; [inversion He; subst; cok|].
+  repeat (destruct p as [p|p|]; try discriminate He); inversion He; subst; clear He; cok.
+Qed.
